@@ -420,3 +420,31 @@ Theorem C07_src_deserialize_mapped :
 Proof. exact src_deserialize_mapped. Qed.
 
 Print Assumptions C07_src_deserialize_mapped.
+
+(* ---- the generated translation of serialize / serialize_internal / serialize_val (Gen/SerializeSrc.v) in the
+   MAPPER-ON configuration: for every root class (names: ASCII, public, no dots), explicit override mapper, camel
+   flag, compact argument and well-typed instance, serialize(x, mapper=override, compact=.., camel_case_convert=flag)
+   of the source returns exactly the document of this property's model [serialize c0 override flag x] (renamed keys,
+   DoNotSerialize, the nested "<field>._mapper" for nested instances and Array/Set of instances), wherever the
+   model predicts and the translation's fuel k suffices.  aggregate_serialization_mappers enters as the oracle
+   [agg], constrained to the model's [aggregate] exactly as C07_src_aggregate_serialization proves of the source;
+   [mapped_ok]: the populated attributes' entries are keys or DoNotSerialize (C07_agg_is_chain;
+   SerializeMappedSrcProofs.mapped_ok_flat), at every level. *)
+From TP Require Ser.SerializeSrcProofs Ser.SerializeMappedSrcProofs.
+Theorem C07_src_serialize_mapped :
+  forall (c0 : classdef) (agg : pyval -> pyval -> pyval -> res pyval) (repr : pyval -> pystr) (flag : bool),
+    SerializeMappedSrcProofs.class_names_ok c0 = true ->
+    forall override : option amap,
+    agg (PyObj.ref (SerializeMappedSrcProofs.cname nil)) (SerializeMappedSrcProofs.enc_override override) (PBool flag) =
+      enc_res (aggregate true c0 override flag) ->
+    forall (k : nat) (x : list (pystr * ival)) (compact : pyval),
+    compact = PNone \/ (exists b : bool, compact = PBool b) ->
+    SerializeMappedSrcProofs.styped c0 x = true ->
+    (forall am, aggregate true c0 override flag = Ok am ->
+                SerializeMappedSrcProofs.mapped_ok (Some (Sub am)) (IStruct x) = true) ->
+    SerializeSrcProofs.refines
+      (SerializeSrc.r_serialize (SerializeSrc.src_knot k (SerializeMappedSrcProofs.map_world c0 agg repr))
+         (SerializeMappedSrcProofs.enc_struct x c0 nil) (SerializeMappedSrcProofs.enc_override override) compact (PBool flag))
+      (SerializeMappedSrcProofs.enc_dres (serialize c0 override flag x)).
+Proof. exact SerializeMappedSrcProofs.src_serialize_mapped. Qed.
+Print Assumptions C07_src_serialize_mapped.
